@@ -542,7 +542,16 @@ class Tokenizer:
         elif self.is_escaped:
             self.is_escaped = False
 
+    def __case_label_length(self) -> int:
+        """Length of a switch-case label (`case <n>:` / `default:`) in front of the statement itself"""
+        if self.keywords[0].string in {"case", "default"}:
+            for index, token in enumerate(self.keywords[:4]):
+                if token.token_type == TokenType.OPERATOR and token.string == ":":
+                    return index + 1
+        return 0
+
     def __should_terminate_line(self, start_at: int = 0) -> bool:
+        start_at += self.__case_label_length()
         string = self.keywords[start_at].string
         if string.startswith("$"):
             string = string[1:]
@@ -558,12 +567,13 @@ class Tokenizer:
         )
 
     def __is_shorten_if(self) -> bool:
+        start_at = self.__case_label_length()
         return (
-            self.keywords[0].string == "if"
-            and len(self.keywords) >= 3
+            self.keywords[start_at].string == "if"
+            and len(self.keywords) >= start_at + 3
             and (
-                self.keywords[2].string != "expand"
-                and self.keywords[2].token_type != TokenType.PAREN_CURLY
+                self.keywords[start_at + 2].string != "expand"
+                and self.keywords[start_at + 2].token_type != TokenType.PAREN_CURLY
             )
         )
 
